@@ -1,4 +1,5 @@
-import WcModel.Proofs.GlobSpec
+import WcModel.Proofs.GlobTop
+import WcModel.Proofs.GlobList
 /-
   C05 — glob returns exactly the paths the pattern denotes on the real tree.
 
@@ -6,24 +7,31 @@ import WcModel.Proofs.GlobSpec
   `denoteTop`, `DenotesB`).  Model: `Model/GlobWalk.lean`, tied to `glob.py` by K5 (parts,
   result sequence, scandir sequence).
 
-  FULL STATEMENT (C05_main):
-      ∀ fs c parts v, (∃ fuel, v ∈ results (globPattern c fs fuel parts)) ↔ DenotesTop fs c parts v
+  FULL STATEMENT (C05_main), for every tree, walk configuration and part list:
+      ∀ v, (∃ fuel, v ∈ results (globPattern c fs fuel parts)) ↔ DenotesTop fs c parts v
   It is FALSE on the pinned tree: D14 (`re.match` accepts `name + "\n"`), D17 (`.`/`..` and the
-  zero-level `dir/` are produced below something that is not a directory) and KF-G2 (under
-  IGNORECASE the seen-set key folds two different entries into one) — each witnessed below
-  by `decide +kernel` on a one- or two-entry tree and replayed on the real code by the check.
+  zero-level `dir/` are produced below something that is not a directory) and — one level up,
+  in the seen set — KF-G2 (under IGNORECASE two different entries share one key).  Each is
+  witnessed below by `decide +kernel` and replayed on the real code by the check.
 
-  PROVED here (all trees, all part lists):
-    * the executable specification is sound for the inductive one, for every fuel
-      (`spec_exec_sound`), `**` as a list is `Below` (`below_sound`, `below_complete`);
-  and in `Proofs/GlobDeep.lean` (see `deep_*` below) the heart of the model/spec relation:
-  what a `**` expansion of the walker yields is exactly the one-level listing of the
-  directories `Below` the starting one.
-  The remaining composition (induction over the part list, hypotheses: segment regexes decide
-  names by full match on the tree's names, a literal first segment followed by further parts
-  names a directory) is checked, not proved: `glob.glob` is compared with `denoteTop` on every
-  generated tree and pattern (search `glob-vs-Denotes`), and `denoteTop` with Bash in the
-  thorough tier.
+  PROVED (`C05_partial`, `C05_partial_results`): the full statement for every tree and every
+  part list under exactly the hypotheses that exclude those defects —
+    * `SegAgree`  : on the names the tree offers, the walker's per-part matcher (`re.match`)
+                    agrees with the segment language (full match)              [excludes D14]
+    * `TopOK`     : the root is a directory, its entry names contain no `/`, a literal first
+                    name followed by further parts names directories only      [excludes D17]
+                    (+ two shape facts every `_GlobSplit` output has)
+    * `WFParts`   : only the last part may lack `dir_only` (every `_GlobSplit` output)
+    * no FOLLOW, no `***`, fuel above the tree height (then the fuel is immaterial: C06).
+  The proof is by induction on the part list (`Proofs/GlobParts.lean`) and, inside `**`, on the
+  tree: `deep_iff_below` — what a `**` expansion yields is exactly the one-level listing of the
+  directories `Below` the starting one (`Proofs/GlobDeep.lean`; this lemma holds with FOLLOW
+  and `***` too, as "some fuel").
+  Also proved: the executable oracle is sound for the inductive specification.
+  NOT proved: the FOLLOW / `***` variant of `C05_partial` (needs monotonicity of the walker in
+  the fuel through `_glob`'s continuation); `_GlobSplit` output satisfies `WFParts` / the shape
+  facts (checked by K5 on every generated pattern); completeness of `denoteList`.
+  The Bash clause is validated in the thorough tier (`denoteTop` vs bash 5.2), not proved.
 -/
 namespace WcModel.C05
 
@@ -37,6 +45,36 @@ theorem below_sound (fs : FS) (c : WalkCfg) (long : Bool) (fuel : Nat) (d d' : D
 
 theorem below_complete (fs : FS) (c : WalkCfg) (long : Bool) (d d' : Dir) (h : Below fs c long d d') :
     ∃ fuel, d' ∈ belowList fs c long fuel d := belowList_complete fs c long h
+
+/-- **C05_partial**: the candidates the walker finds for a pattern are exactly the paths the
+    pattern denotes (hypotheses: see the file header). -/
+theorem C05_partial (c : WalkCfg) (fs : FS) (hc : c.followLinks = false) (fuel : Nat) (hf : fs.top.height < fuel)
+    (parts : List GPart) (hl : NoLong parts) (hwf : WFParts parts) (hag : SegAgree fs c parts)
+    (ht : TopOK fs c parts) (v : Y) :
+    v ∈ results (globPattern c fs fuel parts) ↔ DenotesTop fs c parts v :=
+  globPattern_iff_denotesTop c fs hc fuel hf parts hl hwf hag ht v
+
+/-- … and so the strings `glob()` returns for that pattern are exactly the denoted paths that
+    no exclusion matches, formatted (`dir_only` / MARK). -/
+theorem C05_partial_results (w : WCtx) (fs : FS) (hc : w.followLinks = false) (fuel : Nat)
+    (hf : fs.top.height < fuel) (parts : List GPart) (hl : NoLong parts) (hwf : WFParts parts)
+    (hag : SegAgree fs w.toWalkCfg parts) (ht : TopOK fs w.toWalkCfg parts) (x : List Char) :
+    x ∈ perPattern w fs fuel parts ↔
+      ∃ v, DenotesTop fs w.toWalkCfg parts v ∧ isExcluded w v = false ∧ x = formatPath w (dirOnlyOf parts) v := by
+  rw [perPattern_eq]
+  simp only [List.mem_map, List.mem_filter, Bool.not_eq_true']
+  constructor
+  · rintro ⟨v, ⟨hv, he⟩, rfl⟩
+    exact ⟨v, (C05_partial w.toWalkCfg fs hc fuel hf parts hl hwf hag ht v).1 hv, he, rfl⟩
+  · rintro ⟨v, hv, he, rfl⟩
+    exact ⟨v, ⟨(C05_partial w.toWalkCfg fs hc fuel hf parts hl hwf hag ht v).2 hv, he⟩, rfl⟩
+
+/-- the heart of it: a `**` expansion (any matcher, with or without FOLLOW / `***`) yields
+    exactly the one-level listings of the directories `Below` the starting one -/
+theorem star_is_below (c : WalkCfg) (fs : FS) (absPat : Bool) (m : Matcher) (dirOnly long : Bool) (d : Dir) (v : Y) :
+    (∃ fuel, v ∈ results (globDir c fs absPat m dirOnly true long fuel d.path d.loc)) ↔
+      ∃ d', Below fs c long d d' ∧ v ∈ shallow c fs absPat m dirOnly long d' :=
+  deep_iff_below c fs absPat m dirOnly long d v
 
 /-! ### witnesses -/
 
@@ -95,5 +133,19 @@ def pAstar : List GPart :=
 example : globResults wU tOk 6 [pAstar] = ["a/".toList, "a/b".toList, "a/b/c".toList, "a/l".toList] ∧
     (denoteTop tOk wc true 6 pAstar).map (·.path) = ["a/".toList, "a/b".toList, "a/l".toList, "a/b/c".toList] := by
   decide +kernel
+
+/-- non-vacuity of `C05_partial`: its hypotheses hold for `a/**` on `tOk` (all parts are
+    literal or `**`, so `SegAgree` is by definition), giving the equivalence for every `v` -/
+example (v : Y) : v ∈ results (globPattern wc tOk 6 pAstar) ↔ DenotesTop tOk wc pAstar v := by
+  apply C05_partial wc tOk rfl 6 (by decide +kernel) pAstar
+  · intro p hp; simp [pAstar] at hp; rcases hp with rfl | rfl <;> rfl
+  · exact ⟨rfl, trivial⟩
+  · intro p hp d o _
+    simp [pAstar] at hp
+    rcases hp with rfl | rfl <;> rfl
+  · refine ⟨by decide +kernel, by decide +kernel, ?_, ?_, ?_⟩
+    · intro p rest h; simp [pAstar] at h; obtain ⟨rfl, _⟩ := h; decide +kernel
+    · intro p q rest h _ _; simp [pAstar] at h; obtain ⟨rfl, _, _⟩ := h; decide +kernel
+    · intro p rest h _; simp [pAstar] at h; obtain ⟨rfl, _⟩ := h; rfl
 
 end WcModel.C05
